@@ -80,17 +80,29 @@ type dir struct {
 	plan DirPlan
 	sim  *core.Sim
 
-	mu   sync.Mutex
-	cond *sync.Cond
+	// mu is the LINK's mutex, shared by both directions: delivery, cut and
+	// the log line for them are one atomic step, so nothing the woken reader
+	// does can slip in between (which would make the event order depend on
+	// when the runtime happens to preempt the delivering goroutine).
+	mu *sync.Mutex
+	// cond: the reader of this direction waits here; fcond: the writer of this
+	// direction waits here in Flush. Each end is driven by one goroutine, and
+	// one environment event wakes at most one end: the other end's wake-up is
+	// a separate event at its own instant. Two goroutines made runnable by
+	// the same event would proceed in an order only the Go scheduler knows.
+	cond  *sync.Cond
+	fcond *sync.Cond
+	peer  *dir
 
 	// sender side
-	written   int // bytes accepted from the writer (before edits)
-	segIdx    int
-	writeIdx  int
-	lastSched time.Duration
-	inflight  int // bytes scheduled but not yet delivered (or dropped)
-	wclosed   bool
-	lastSeg   *pendSeg // segment scheduled last (Coalesce)
+	written      int // bytes accepted from the writer (before edits)
+	segIdx       int
+	writeIdx     int
+	lastSched    time.Duration
+	inflight     int // bytes scheduled but not yet delivered (or dropped)
+	flushWaiters int
+	wclosed      bool
+	lastSeg      *pendSeg // segment scheduled last (Coalesce)
 
 	// receiver side
 	buf       []byte
@@ -104,8 +116,8 @@ type dir struct {
 	rdeadline time.Time
 	rdTimer   *time.Timer
 
-	onCut func()
-	tap   func(p []byte) // sees bytes as delivered
+	cutSilent bool
+	tap       func(p []byte) // sees bytes as delivered
 }
 
 // End is one end of a link and implements net.Conn.
@@ -125,24 +137,28 @@ type End struct {
 
 // Link is a pair of connected ends.
 type Link struct {
-	A, B *End
-	ab   *dir
-	ba   *dir
-	sim  *core.Sim
+	A, B      *End
+	ab        *dir
+	ba        *dir
+	sim       *core.Sim
+	mu        *sync.Mutex
+	silentCut bool
 }
 
 // New creates a link inside the current bubble.
 func New(sim *core.Sim, p Plan) *Link {
+	lmu := &sync.Mutex{}
 	mk := func(name string, dp DirPlan) *dir {
-		d := &dir{name: name, plan: dp, sim: sim, cutOff: -1}
-		d.cond = sync.NewCond(&d.mu)
+		d := &dir{name: name, plan: dp, sim: sim, cutOff: -1, mu: lmu}
+		d.cond = sync.NewCond(lmu)
+		d.fcond = sync.NewCond(lmu)
 		return d
 	}
-	l := &Link{sim: sim, ab: mk("ab", p.AB), ba: mk("ba", p.BA)}
+	l := &Link{sim: sim, ab: mk("ab", p.AB), ba: mk("ba", p.BA), mu: lmu}
+	l.ab.peer, l.ba.peer = l.ba, l.ab
+	l.silentCut = p.Cut != nil && p.Cut.Silent
 	l.A = &End{name: "A", rx: l.ba, tx: l.ab, sim: sim, laddr: addr("A"), raddr: addr("B")}
 	l.B = &End{name: "B", rx: l.ab, tx: l.ba, sim: sim, laddr: addr("B"), raddr: addr("A")}
-	cutAll := func() { l.kill(p.Cut != nil && p.Cut.Silent) }
-	l.ab.onCut, l.ba.onCut = cutAll, cutAll
 	if p.Cut != nil {
 		d := l.ab
 		if p.Cut.Dir == "ba" {
@@ -153,9 +169,16 @@ func New(sim *core.Sim, p Plan) *Link {
 			off = 0
 		}
 		d.cutOff = off
+		d.cutSilent = l.silentCut
 		if off == 0 {
 			// nothing is ever delivered in that direction: the link dies at once
-			sim.At(0, func() { sim.Fault("cut"); sim.Logf("cut %s@0", d.name); cutAll() })
+			sim.At(0, func() {
+				lmu.Lock()
+				sim.Fault("cut")
+				sim.Logf("cut %s@0", d.name)
+				d.cutLocked(l.silentCut)
+				lmu.Unlock()
+			})
 		}
 	}
 	return l
@@ -172,28 +195,56 @@ func (l *Link) Tap(ab, ba func(p []byte)) { l.ab.tap, l.ba.tap = ab, ba }
 
 // Delivered returns the number of bytes delivered so far in each direction.
 func (l *Link) Delivered() (ab, ba int) {
-	l.ab.mu.Lock()
-	ab = l.ab.delivered
-	l.ab.mu.Unlock()
-	l.ba.mu.Lock()
-	ba = l.ba.delivered
-	l.ba.mu.Unlock()
-	return
+	l.mu.Lock()
+	defer l.mu.Unlock()
+	return l.ab.delivered, l.ba.delivered
 }
 
 // Kill cuts the link now (both directions), as a link failure.
 func (l *Link) Kill() { l.kill(false) }
 
 func (l *Link) kill(silent bool) {
+	l.mu.Lock()
+	l.killLocked(silent)
+	l.mu.Unlock()
+}
+
+func (l *Link) killLocked(silent bool) {
 	for _, d := range []*dir{l.ab, l.ba} {
-		d.mu.Lock()
-		d.dead = true
-		d.eof = true
-		d.silent = silent
-		d.inflight = 0
-		d.cond.Broadcast()
-		d.mu.Unlock()
+		d.killLocked(silent)
 	}
+}
+
+func (d *dir) killLocked(silent bool) {
+	d.dead = true
+	d.eof = true
+	d.silent = silent
+	d.inflight = 0
+	d.cond.Broadcast()
+	d.fcond.Broadcast()
+}
+
+// cutLocked is a link failure detected while delivering in direction d. Both
+// directions stop carrying data at once. The end that reads d notices now; the
+// other end notices at a later instant of its own.
+func (d *dir) cutLocked(silent bool) {
+	for _, x := range []*dir{d, d.peer} {
+		x.dead = true
+		x.silent = silent
+		x.inflight = 0
+	}
+	d.eof = true
+	d.cond.Broadcast()       // the reader of d ...
+	d.peer.fcond.Broadcast() // ... which is also the writer of d.peer
+	p := d.peer
+	d.sim.At(0, func() {
+		d.mu.Lock()
+		d.sim.Logf("cut noticed by the %s side", p.name[:1])
+		p.eof = true
+		p.cond.Broadcast()
+		d.fcond.Broadcast()
+		d.mu.Unlock()
+	})
 }
 
 func (d *dir) applyEdits(p []byte) []byte {
@@ -294,10 +345,10 @@ func (d *dir) write(p []byte) (int, error) {
 
 func (d *dir) deliver(ps *pendSeg) {
 	d.mu.Lock()
+	defer d.mu.Unlock()
 	ps.done = true
 	seg := ps.data
 	if d.dead {
-		d.mu.Unlock()
 		return
 	}
 	cutNow := false
@@ -309,22 +360,29 @@ func (d *dir) deliver(ps *pendSeg) {
 	if d.inflight < 0 {
 		d.inflight = 0
 	}
+	// log first, then make the data visible: whatever the reader logs comes after
+	d.sim.Logf("dlv %s +%d =%d", d.name, len(seg), d.delivered+len(seg))
 	if !d.rclosed {
 		d.buf = append(d.buf, seg...)
 	}
 	d.delivered += len(seg)
-	tap := d.tap
-	d.cond.Broadcast()
-	total := d.delivered
-	d.mu.Unlock()
-	d.sim.Logf("dlv %s +%d =%d", d.name, len(seg), total)
-	if tap != nil && len(seg) > 0 {
-		tap(seg)
+	if d.tap != nil && len(seg) > 0 {
+		d.tap(seg) // taps only record; they never call back into the link
 	}
 	if cutNow {
 		d.sim.Fault("cut")
-		d.sim.Logf("cut %s@%d", d.name, total)
-		d.onCut()
+		d.sim.Logf("cut %s@%d", d.name, d.delivered)
+		d.cutLocked(d.cutSilent)
+		return
+	}
+	d.cond.Broadcast()
+	if d.inflight == 0 && d.flushWaiters > 0 {
+		// the writer's Flush completes at an instant of its own
+		d.sim.At(0, func() {
+			d.mu.Lock()
+			d.fcond.Broadcast()
+			d.mu.Unlock()
+		})
 	}
 }
 
@@ -390,10 +448,10 @@ func (d *dir) closeWrite() {
 	lat := time.Duration(core.TapeAt(d.plan.LatUs, d.segIdx, 100)) * time.Microsecond
 	at := d.sim.AtAbs(base+lat, func() {
 		d.mu.Lock()
+		d.sim.Logf("fin %s", d.name)
 		d.eof = true
 		d.cond.Broadcast()
 		d.mu.Unlock()
-		d.sim.Logf("fin %s", d.name)
 	})
 	d.lastSched = at
 	d.mu.Unlock()
@@ -486,7 +544,9 @@ func (e *End) flush() error {
 	e.tx.mu.Lock()
 	defer e.tx.mu.Unlock()
 	for e.tx.inflight > 0 && !e.tx.dead {
-		e.tx.cond.Wait()
+		e.tx.flushWaiters++
+		e.tx.fcond.Wait()
+		e.tx.flushWaiters--
 	}
 	if e.tx.dead && !e.tx.silent {
 		return errBroken
